@@ -94,7 +94,6 @@ class CSSMediaRule(cssrule.CSSRuleRules):
 
         else:
             # save if parse goes wrong
-            oldMedia = self._media
             oldCssRules = self._cssRules
 
             ok = True
@@ -104,10 +103,11 @@ class CSSMediaRule(cssrule.CSSRuleRules):
                 tokenizer, mediaqueryendonly=True, separateEnd=True
             )
             if '{' == self._tokenvalue(end) or self._prods.STRING == self._type(end):
-                self.media = cssutils.stylesheets.MediaList(parentRule=self)
+                # set only if everything else is ok too, see below
+                newMedia = cssutils.stylesheets.MediaList(parentRule=self)
                 # TODO: remove special case
-                self.media.mediaText = mediatokens
-                ok = ok and self.media.wellformed
+                newMedia.mediaText = mediatokens
+                ok = ok and newMedia.wellformed
             else:
                 ok = False
 
@@ -225,30 +225,35 @@ class CSSMediaRule(cssrule.CSSRuleRules):
                 seq = []  # not used really
 
                 tokenizer = iter(cssrulestokens)
-                wellformed, expected = self._parse(
-                    braceOrEOF,
-                    seq,
-                    tokenizer,
-                    {
-                        'COMMENT': COMMENT,
-                        'CHARSET_SYM': atrule,
-                        'FONT_FACE_SYM': atrule,
-                        'IMPORT_SYM': atrule,
-                        'NAMESPACE_SYM': atrule,
-                        'PAGE_SYM': atrule,
-                        'MEDIA_SYM': atrule,
-                        'ATKEYWORD': atrule,
-                    },
-                    default=ruleset,
-                    new=new,
-                )
+                try:
+                    wellformed, expected = self._parse(
+                        braceOrEOF,
+                        seq,
+                        tokenizer,
+                        {
+                            'COMMENT': COMMENT,
+                            'CHARSET_SYM': atrule,
+                            'FONT_FACE_SYM': atrule,
+                            'IMPORT_SYM': atrule,
+                            'NAMESPACE_SYM': atrule,
+                            'PAGE_SYM': atrule,
+                            'MEDIA_SYM': atrule,
+                            'ATKEYWORD': atrule,
+                        },
+                        default=ruleset,
+                        new=new,
+                    )
+                except xml.dom.DOMException:
+                    # a rule has been rejected (if raising), reset
+                    self._cssRules = oldCssRules
+                    raise
                 ok = ok and wellformed
 
             if ok:
+                self.media = newMedia
                 self.name = name
                 self._setSeq(nameseq)
             else:
-                self._media = oldMedia
                 self._cssRules = oldCssRules
 
     cssText = property(
